@@ -51,6 +51,12 @@ def _net_splits(thorough):
         if x in ("*", "**"):
             d["VP_MATCH_ALL"] = None
         out.append(d)
+    # layouts outside the syntax (one component or dot too many): memory / shift / overflow safety only
+    bad = ["d.d.d.d.d", "d.d.d.d.", "ddd.ddd.ddd.ddd.ddd", "d.d.d.d.d/dd", "d.d.d.d.*", "d.d.d.d.d.d.d", "::d.d.d.d.d"]
+    if thorough:
+        bad += ["dd.dd.dd.dd.dd.dd", "d.d.d.d./d", "hhhh::ddd.ddd.ddd.ddd.ddd", "d.d.d.d.d.*"]
+    for i, x in enumerate(bad):
+        out.append({"_name": "bad%02d" % i, "VP_TMPL": '"%s"' % x, "VP_NOT_AN_ADDRESS": None})
     return out
 
 
@@ -580,7 +586,7 @@ RECIPES["C14"] = {
 
 RECIPES["C14"]["jobs"] = [
     {"name": "tok", "src": ["C14_tok.c"] + CONFIG_TU, "gen": _gen_shim.gen,
-     "splits": {"quick": [{"VP_LEN": n} for n in (1, 2, 3, 4)], "thorough": [{"VP_LEN": n} for n in range(1, 8)]},
+     "splits": {"quick": [{"VP_LEN": n} for n in (1, 2, 3, 4)], "thorough": [{"VP_LEN": n} for n in range(1, 6)]},
      "unwind": "VP_LEN + 3", "unwindset": ["ctype_init.0:31", "ctype_init.1:17", "harness.0:12", "harness.1:12", "harness.2:12"],
      "fp_restrict": FP_CONFIG, "timeout": 900},
 ]
@@ -616,7 +622,7 @@ RECIPES["C14"]["jobs"].append(
 
 RECIPES["C16"]["jobs"].append(
     {"name": "tok", "src": ["C14_tok.c"] + CONFIG_TU, "gen": _gen_shim.gen,
-     "splits": {"quick": [{"VP_LEN": n} for n in (2, 3, 4)], "thorough": [{"VP_LEN": n} for n in range(1, 8)]},
+     "splits": {"quick": [{"VP_LEN": n} for n in (2, 3, 4)], "thorough": [{"VP_LEN": n} for n in range(1, 6)]},
      "unwind": "VP_LEN + 3", "unwindset": ["ctype_init.0:31", "ctype_init.1:17", "harness.0:12", "harness.1:12", "harness.2:12"],
      "fp_restrict": FP_CONFIG, "timeout": 900})
 # white space and both comment styles on every byte string
@@ -703,7 +709,7 @@ META = {
     "C05": (_STEP_TEXT + ". Obligations: NO/AGAIN/MORE texts relayed verbatim to that client only; R exactly when a login-type service vouched an account (first stamp kept), +x when hiding was requested, class as assigned.", _STEP_NOTE),
     "C06": (_STEP_TEXT + ". Obligations: the set of services queried in the step equals the reference set (configured, prerequisites now complete, not yet asked / re-asked on a well-formed password); CHECK/LOGIN/LOGIN2 carry this client's fields (ident else ~claimed name, within USERLEN); a malformed password is neither stored nor forwarded.", _STEP_NOTE),
     "C07": (_STEP_TEXT + ". Obligations (frame): an event about one client leaves every other request record and xquery record byte-identical and emits no line naming them; `two`: two events in sequence (A then B) - nothing left in module statics by the first leaks into the second's lines.", _STEP_NOTE),
-    "C08": ("one input line through the real iauth_read (id parse, 16-slot tokenizer, lookup, dispatch, handler) from every inv() state: the line LAYOUT and command letter are enumerated by the driver (bare command, arguments, trailing argument, 17 arguments, unknown id, no id, two lines in one read), payload bytes symbolic; obligations: CBMC's memory-safety checks on the whole path, lines consumed, unknown id/command is a no-op, EOF requests a clean exit and changes nothing",
+    "C08": ("one input line through the real iauth_read (id parse, 16-slot tokenizer, lookup, dispatch, handler) from every inv() state: the line LAYOUT and command letter are enumerated by the driver (bare command, arguments, trailing argument, 17 arguments, unknown id, no id, two lines in one read - with the request in an arbitrary and in the freshly announced state), payload bytes symbolic; obligations: CBMC's memory-safety checks on the whole path, lines consumed, unknown id/command is a no-op, EOF requests a clean exit and changes nothing",
             "trusted: evbuffer model hands out complete lines (chunk reassembly is libevent's); irc_pton/irc_ntop replaced by their contract (decided in C12/C13); invariant and recorder as in the step harness. Outside: arbitrary byte streams beyond the layouts, hangs inside libevent"),
     "C09": ("formatting layer: for every format literal passed to iauth_send in the three modules (list extracted from /repo on every run) the real iauth_send renders exactly <word> [<id> <addr> <port>]<rest> in one fputs + one newline + one flush, byte for byte, with symbolic %s contents, symbolic address text and id/port chosen among boundary values; an over-long (1100-byte) argument is truncated to 1023 bytes memory-safely. stdout isolation of the logger at verbosity 0 is decided in C18 fanout. `announce`: an announcement (real parse_client) stores the announced id, port and address text. `addr_text`: the text irc_ntop prints for EVERY IPv6 address is read back by a standard parser as that address (quick: groups <= 0xf; thorough full width).",
             "trusted: byte-exact printf model (env/libc_models.c; native replay uses glibc); numbers restricted to boundary values (decimal rendering is libc's). Outside: that every record the decision layer produces is rendered through these literals (by construction of the recorder); the announced address text itself is parsed by irc_pton (C13)"),
